@@ -295,7 +295,9 @@ def stepCore (d : DState) (req : List String) (impl : String) : DState × String
     ({ g := G.empty endv directed, sp := CGS.empty endv directed }, s!"case {k}")
   -- ------------------------------------------------------------------ constructors
   | ["new", _] => mutate (.new sp.directed) (CGS.empty sp.cap sp.directed) (expect "ok" impl)
-  | ["from_edges", l] =>
+  | "from_edges" :: l :: form =>
+    -- `form` (optional): which `IntoWeightedEdge` item form the harness used; the call is the same call
+    if !C01Checks.formOkB form then bad else
     let l := parseTriples l
     let (sp', ok) := CGS.extendWithEdges (CGS.empty sp.cap sp.directed) l
     if ok then mutate (.fromEdges l) sp' (expect "ok" impl)
@@ -378,7 +380,8 @@ def stepCore (d : DState) (req : List String) (impl : String) : DState × String
   | ["retain_edges", mask, bump] =>
     let (mask, bump) := (parseMask mask, parseMask bump)
     mutate (.retainEdges mask bump) (CGS.retainEdges mask bump m sp) (expect "ok" impl) 1
-  | ["extend_with_edges", l] =>
+  | "extend_with_edges" :: l :: form =>
+    if !C01Checks.formOkB form then bad else
     let l := parseTriples l
     let (sp', ok) := CGS.extendWithEdges sp l
     mutate (.extendWithEdges l) sp' (expect (if ok then "ok" else "panic") impl)
@@ -390,7 +393,9 @@ def stepCore (d : DState) (req : List String) (impl : String) : DState × String
   | ["into_edge_type", t] =>
     mutate (.intoEdgeType (t == "dir")) { sp with directed := t == "dir" } (expect "ok" impl)
   | ["clone", _] => mutate .clone sp (expect "ok" impl)
+  -- `rebuild 0`: Graph::from(StableGraph::from(g)); `rebuild 1`: into_nodes_edges + re-insertion in index order
   | ["rebuild"] => mutate .rebuild (CGS.filterMap sp [] [] 0 0) (expect "ok" impl)
+  | ["rebuild", _] => mutate .rebuild (CGS.filterMap sp [] [] 0 0) (expect "ok" impl)
   | ["cap", _] => mutate .capacityOp sp (expect "ok" impl)
   | ["walk", a, mode, bump] =>
     let a := nat a
@@ -441,6 +446,13 @@ def stepCore (d : DState) (req : List String) (impl : String) : DState × String
           ({ d with wks := ws'.ws, sws := d.sws.set w sw.disturb },
             verdict d (some s!"walker_next({w}) answered [{impl}]: {state}") ms impl)
   -- ------------------------------------------------------------------ queries
+  -- ------------------------------------------------------------------ laws checked by the harness
+  -- `law <name> …`: a law of the public API (iterator contracts, clone_from = clone, Default, Debug, trait
+  -- views, capacity) checked in the harness against the implementation itself; anything but `ok` is a violation
+  | "law" :: name :: _ =>
+    (d, match C01Checks.lawVerdict name impl with
+      | none => "ok"
+      | some why => s!"SPECFAIL {why}")
   | ["node_count"] => query .nodeCount (expect (toString n) impl)
   | ["edge_count"] => query .edgeCount (expect (toString m) impl)
   | ["is_directed"] => query .isDirected (expect (showBool sp.directed) impl)
@@ -600,6 +612,7 @@ def indexArgs (req : List String) : List Nat :=
     else []
   | ["index_twice_mut", _, i, j, _, _] => [nat i, nat j]
   | [f, a, b] =>
+    if f == "extend_with_edges" || f == "from_edges" then tri a else
     if f == "find_edge" || f == "find_edge_undirected" || f == "contains_edge" || f == "edges_connecting" then [nat a, nat b]
     else if f == "node_weight_mut" || f == "edge_weight_mut" || f == "index_mut_node" || f == "index_mut_edge"
       || f == "neighbors_directed" || f == "edges_directed" || f == "first_edge" || f == "next_edge" || f == "walker_new" then [nat a]
